@@ -20,7 +20,7 @@ RULE = (
 )
 ASSUMPTIONS = ["MuJoCo C 3.13 is the reference", "tolerance 5e-4*scale for forces/M, qacc_smooth scaled by cond(M) (skipped if cond>1e6)"]
 BUDGET = {
-  "quick": dict(examples=480, seconds=150, workers=16),
+  "quick": dict(examples=480, seconds=420, workers=16),
   "thorough": dict(examples=12000, seconds=1500, workers=16),
 }
 
